@@ -13,6 +13,14 @@ import YaegiVerif.Model.ConstVal
   declaration); `none` = no type pushed down (expression operands of calls, first walk).
 
   Source-text choices come from `EvalFacts` / `ReprFacts` (regenerated); go/constant is `ConstVal.lean`.
+
+  Since the repairs of the third round every fold is framed by two checks (`check.constExpr` before: the exact
+  result of an operation on typed constants, recomputed with go/constant, must be representable in the operand
+  type; `check.constOverflow` after: an untyped integer result has at most 512 bits), quotients go through the
+  operand conversions like the other operators, an operation on two untyped constants keeps the untyped type
+  whatever type the context pushed down, comparisons and `&&`/`||` are folded, and conversions of typed constants
+  are checked. Each of these is a `CheckFacts` flag read from the source; with a flag off the model does what the
+  code did before the repair.
 -/
 namespace YaegiVerif.Const
 
@@ -99,6 +107,9 @@ structure NS where
   inner : Bool := false
   /-- `findex ≥ 0` (literals, idents; folded operator nodes get `notInFrame`) -/
   fidx : Bool := false
+  /-- `rval.CanSet()`: the reflect value was made by `reflect.New(t).Elem()` (result of a fold on typed operands,
+      of lenConst); `zeroConst` does not take such a value for a constant -/
+  set : Bool := false
   deriving DecidableEq, Repr, Inhabited
 
 def NS.loose (n : NS) : Bool := n.self || n.inner
@@ -147,6 +158,11 @@ def convertConstY (c : CV) (t : BT) : Res RV :=
              | .flt q => (match round64 q with | some r => .ok (.r .f64 (.flt r)) | none => .unm "float-inf")
              | _ => .ok (.r .f64 (.flt ⟨0, 1⟩)))
 
+/-- `constValue(v)`: the exact go/constant value of an rval (a reflect number, string or boolean is exact too) -/
+def constValueY : RV → CV
+  | .c v => v
+  | .r _ v => v
+
 /-- `check.convertUntyped(n, typ)`: returns the node as mutated, or `none` for the error return
     (most callers ignore the error and keep the node unchanged) -/
 def convertUntypedY (F : Facts) (n : NS) (target : Ty) : Res (Option NS) :=
@@ -158,11 +174,17 @@ def convertUntypedY (F : Facts) (n : NS) (target : Ty) : Res (Option NS) :=
       else if n.ty.kindRank != target.kindRank then .ok none
       else .ok (some n)
     | .t b =>
+      if F.eval.chk.boolConvChecked && (n.ty.isBool != (b == .bool)) then .ok none     -- true / false ↔ a non-boolean type
+      else
       match n.rv with
       | .c c =>
         if !representableY F c b then .ok none
-        else (convertConstY c b).bind fun rv => .ok (some { n with rv := rv, ty := target, self := false })
-      | .r _ _ => .ok (some { n with ty := target, self := false })   -- not a constant.Value: representable/convertConst return early
+        else (convertConstY c b).bind fun rv => .ok (some { n with rv := rv, ty := target, self := false, set := false })
+      | .r _ v =>
+        -- not a constant.Value: convertConst returns it unchanged; `representable` looks at it through constValue
+        -- since 7402c20 (before, it returned early)
+        if F.eval.chk.reprConstValue && !representableY F v b then .ok none
+        else .ok (some { n with ty := target, self := false })
 
 /-! ### value extraction of the typed arms of op.go (value.go vInt / vUint / vFloat / vString) -/
 
@@ -396,13 +418,25 @@ def binaryPredY (a : Act) (t : Ty) : Bool :=
   | _ => false
 
 /-- `zeroConst(n)` -/
-def zeroConstY (n : NS) : Res Bool :=
-  if !n.ty.untyped then .ok false
-  else match n.rv with
-    | .c (.str _) => .crash            -- constant.Sign panics: "… not numeric"
-    | .c (.bool _) => .crash
-    | .c c => .ok (c.sign == 0)
-    | .r _ _ => .crash                 -- the type assertion to constant.Value panics
+def zeroConstY (F : Facts) (n : NS) : Res Bool :=
+  match F.eval.chk.zeroForm with
+  | .untypedOnly =>
+    if !n.ty.untyped then .ok false
+    else match n.rv with
+      | .c (.str _) => .crash            -- constant.Sign panics: "… not numeric"
+      | .c (.bool _) => .crash
+      | .c c => .ok (c.sign == 0)
+      | .r _ _ => .crash                 -- the type assertion to constant.Value panics
+  | .anyConst =>
+    if !n.ty.isNumber then .ok false
+    else match n.rv with
+      | .c (.str _) => .crash
+      | .c (.bool _) => .crash
+      | .c c => .ok (c.sign == 0)
+      | .r _ (.int v) => .ok (!n.set && v == 0)
+      | .r _ (.flt q) => .ok (!n.set && q.num == 0)
+      | .r _ _ => .ok false
+  | .other => .unm "zeroConst"
 
 /-- `nodeType` of a binaryExpr whose operands already carry their types -/
 def binTypeY (shift : Bool) (t0 t1 : Ty) : Ty :=
@@ -429,8 +463,61 @@ def isChain : CExpr → Bool
   | _ => false
 
 def isShiftAct (a : Act) : Bool := a == .shl || a == .shr
+def isCmpAct (a : Act) : Bool := a == .eq || a == .ne || a == .lt || a == .le || a == .gt || a == .ge
+def isLogicAct (a : Act) : Bool := a == .land || a == .lor
 def isBoolAct (a : Act) : Bool :=
   a == .eq || a == .ne || a == .lt || a == .le || a == .gt || a == .ge || a == .land || a == .lor || a == .not
+
+def isConstRV : RV → Bool
+  | .c _ => true
+  | .r _ _ => false
+
+/-- `isUntypedConst(n)`: an untyped constant with an exact (go/constant) value -/
+def isUntypedConstY (n : NS) : Bool := n.ty.untyped && isConstRV n.rv
+
+/-- `constant.UnaryOp(tok, x, prec)` with a precision: `^x` of an unsigned operand is limited to `prec` bits -/
+def cUnaryP (tok : Tok) (x : CV) (prec : Nat) : Res CV :=
+  match tok, x with
+  | .xor, .int v => .ok (.int (if prec = 0 then inot v else (inot v) % (2 ^ prec : Int)))
+  | _, _ => cUnary tok x
+
+/-- `constant.Shift(x, tok, s)` -/
+def cShift (tok : Tok) (x : CV) (s : Nat) : Res CV :=
+  match x, tok with
+  | .int v, .shl => .ok (.int (ishl v s))
+  | .int v, .shr => .ok (.int (ishr v s))
+  | .unknown, _ => .ok .unknown
+  | _, _ => .crash
+
+/-- `check.constExpr(n)` (typecheck.go, 5e2cd1c): the operation of `n` on constant operands, at least one of
+    them typed, recomputed exactly with go/constant; the result must be defined and representable in the type of
+    the first operand. `ok` = no error. -/
+def constExprY (F : Facts) (a : Act) (unary : Bool) (c0 c1 : NS) : Res Unit :=
+  if isCmpAct a || (isConstRV c0.rv && (isShiftAct a || isConstRV c1.rv)) then .ok ()
+  else
+    let t := c0.ty.rtype
+    let x := if t.isInt then (constValueY c0.rv).toInt else constValueY c0.rv
+    let y := if t.isInt then (constValueY c1.rv).toInt else constValueY c1.rv
+    if t.isInt && !(x.isIntKind && y.isIntKind) then .reject              -- "constant truncated"
+    else
+      let tok := F.eval.tokOf a
+      (if unary then
+         (match t with
+          | .i k => if !k.signed then cUnaryP tok x k.bits else cUnaryP tok x 0
+          | _ => cUnaryP tok x 0)
+       else if isShiftAct a then
+         (vUint c1.rv).bind fun s => cShift tok x (min s.toNat F.eval.chk.shiftClamp)
+       else if (tok == .quo || tok == .rem) && y.sign == 0 then .reject   -- "division by zero"
+       else if F.eval.chk.quoIntExact && tok == .quo && t.isInt then cBinary .quoAssign x y
+       else cBinary tok x y).bind fun r =>
+      if representableY F r t then .ok () else .reject
+
+/-- `check.constOverflow(n)` (b425d98): an integer constant result (a reflect integer is one too, but never that
+    long) is limited to `N` bits -/
+def constOverflowY (F : Facts) (rv : RV) : Res Unit :=
+  match F.eval.chk.intBitsMax, constValueY rv with
+  | some n, .int v => if bitLen v > n then .reject else .ok ()
+  | _, _ => .ok ()
 
 /-- reflect.Value.Convert between basic kinds, for a reflect value `v` of kind `from` -/
 def reflectConvert (from_ to : BT) (v : CV) : Res RV :=
@@ -461,25 +548,37 @@ def convertibleY (from_ to : BT) : Bool :=
   | _, .str => false
   | _, _ => true
 
-/-- post-order case `unaryExpr` (typecheck.unaryExpr, then the fold) -/
+/-- is the rval of a typed fold settable (`reflect.New(t).Elem()`) -/
+def isSetRV : RV → Bool
+  | .r _ _ => true
+  | .c _ => false
+
+/-- post-order case `unaryExpr` (typecheck.unaryExpr, then constExpr, the fold, constOverflow) -/
 def unNodeY (F : Facts) (a : Act) (c0 : NS) : Res NS :=
   if !unaryPredY a c0.ty then .reject
-  else (foldUnY F a c0.ty c0.rv).bind fun rv => .ok { rv := rv, ty := c0.ty, inner := c0.loose }
+  else
+    (if F.eval.chk.constExprUn then constExprY F a true c0 c0 else .ok ()).bind fun _ =>
+    (foldUnY F a c0.ty c0.rv).bind fun rv =>
+    (if F.eval.chk.overflowUn then constOverflowY F rv else .ok ()).bind fun _ =>
+    .ok { rv := rv, ty := c0.ty, inner := c0.loose, set := isSetRV rv }
 
 /-- `fixUntyped(n, sc)` after a binary node got a typed `typ`: before 08f21a9 (`fixSkipsConst = false`) a descendant
     parenExpr that is still untyped and carries a frame index made it index `sc.types` (a Go panic when the package
     scope has no variable yet); since then constants are skipped and nothing happens -/
 def fixUntypedY (F : Facts) (env : Env) (nty : Ty) (c0 c1 : NS) (rv : RV) : Res NS :=
   if !F.eval.fixSkipsConst && !nty.untyped && env.noFrame && (c0.loose || c1.loose) then .crash
-  else .ok { rv := rv, ty := nty, inner := if nty.untyped then c0.loose || c1.loose else false }
+  else .ok { rv := rv, ty := nty, inner := if nty.untyped then c0.loose || c1.loose else false, set := isSetRV rv }
 
-/-- `check.shift`, right operand: an untyped count is converted to `uint`, a typed one must be of integer type -/
+/-- `check.shift`, right operand: an untyped count is converted to `uint`, a typed one must be of integer type —
+    or, when both operands are constants, of floating-point type with a non-negative integral value (04c8232) -/
 def shiftCountY (F : Facts) (c1 : NS) : Res NS :=
   if c1.ty.untyped then
     (convertUntypedY F c1 (.t (.i .uint))).bind fun r => match r with
       | some n => .ok n
       | none => .reject
   else if c1.ty.isInt then .ok c1
+  else if F.eval.chk.floatShiftCount && c1.ty.isFloat then
+    (vFloat c1.rv).bind fun q => if decide (0 ≤ q.num) && q.isInt then .ok c1 else .reject
   else .reject
 
 /-- `check.shift`, left operand: an untyped constant is replaced by `constant.ToInt` of itself and must then be an
@@ -494,27 +593,52 @@ def shiftLeftY (c0 : NS) : Res NS :=
     let okLeft : Bool := (match c0.ty.untyped, c0'.rv with | true, .c (.int _) => true | _, _ => false) || c0.ty.isInt
     if okLeft then .ok c0' else .reject
 
-/-- `check.shift` on the operands: the (possibly mutated) operands, or reject -/
+/-- `check.shift` on the operands: the (possibly mutated) operands, or reject; the last test is the limit on
+    constant shift counts (b425d98) -/
 def checkShiftY (F : Facts) (c0 c1 : NS) : Res (NS × NS) :=
-  (shiftLeftY c0).bind fun c0' => (shiftCountY F c1).bind fun c1' => .ok (c0', c1')
+  (shiftLeftY c0).bind fun c0' => (shiftCountY F c1).bind fun c1' =>
+    match F.eval.chk.shiftCountMax with
+    | none => .ok (c0', c1')
+    | some m => (vUint c1'.rv).bind fun s => if s > m then .reject else .ok (c0', c1')
+
+/-- cfg.go, binaryExpr case (7973ebe): an operation on untyped constants is an untyped constant whatever type the
+    context pushed down (`n.typ != nil` = a type was pushed, or left by an earlier walk) -/
+def stayUntypedY (F : Facts) (forced : Option Ty) (shift : Bool) (c0 c1 : NS) : Option Ty :=
+  match forced with
+  | none => none
+  | some f =>
+    if F.eval.chk.untypedStays && isUntypedConstY c0 && (isUntypedConstY c1 || shift) then some c0.ty else some f
+
+/-- the type of an operator node that takes neither the type of its first operand (`%`, shifts of a typed operand)
+    nor `bool`: the pushed-down type unless the operation stays untyped, `nodeType` when nothing was pushed -/
+def nodeTyY (F : Facts) (forced : Option Ty) (shift : Bool) (c0 c1 : NS) : Ty :=
+  match stayUntypedY F forced shift c0 c1 with
+  | some f => f
+  | none => binTypeY shift c0.ty c1.ty
 
 /-- post-order case `binaryExpr` for `<<` and `>>` -/
 def shiftNodeY (F : Facts) (env : Env) (forced : Option Ty) (a : Act) (c0 c1 : NS) : Res NS :=
   (checkShiftY F c0 c1).bind fun (c0', c1') =>
-    let nty : Ty := if !c0'.ty.untyped then c0'.ty
-      else (match forced with | some f => f | none => binTypeY true c0'.ty c1'.ty)
-    (foldShiftY F a nty c0'.rv c1'.rv).bind fun rv => fixUntypedY F env nty c0' c1' rv
+    let nty : Ty := if !c0'.ty.untyped then c0'.ty else nodeTyY F forced true c0' c1'
+    (if F.eval.chk.constExprBin then constExprY F a false c0' c1' else .ok ()).bind fun _ =>
+    (foldShiftY F a nty c0'.rv c1'.rv).bind fun rv =>
+    (if F.eval.chk.overflowBin then constOverflowY F rv else .ok ()).bind fun _ =>
+    fixUntypedY F env nty c0' c1' rv
+
+/-- `check.binaryExpr`, case aAdd: "catch mixing string and number for + operator use" — the type the node already
+    has (pushed down, or left by an earlier walk) against the types of the operands -/
+def addOkY (a : Act) (forced : Option Ty) (t0 t1 : Ty) : Bool :=
+  match a, forced with
+  | Act.add, some f => !(f.isNumber != t0.isNumber || f.isNumber != t1.isNumber)
+  | _, _ => true
 
 /-- `check.binaryExpr` for the arithmetic operators: the (possibly mutated) operands, or reject -/
 def checkBinaryY (F : Facts) (forced : Option Ty) (a : Act) (c0 c1 : NS) : Res (NS × NS) :=
-  let addOk : Bool := match a, forced with
-    | Act.add, some f => !(f.isNumber != c0.ty.isNumber || f.isNumber != c1.ty.isNumber)
-    | _, _ => true
-  if !addOk then .reject
+  if !addOkY a forced c0.ty c1.ty then .reject
   else
-    (if a == Act.rem || a == Act.quo then zeroConstY c1 else .ok false).bind fun z =>
+    (if a == Act.rem || a == Act.quo then zeroConstY F c1 else .ok false).bind fun z =>
     if z then .reject
-    else if a == Act.quo then .ok (c0, c1)       -- both operands constant: no conversion, no type check
+    else if a == Act.quo && F.eval.chk.quoEarlyReturn then .ok (c0, c1)   -- before 4bcc5b4: no conversion, no type check
     else
       (convertUntypedY F c0 c1.ty).bind fun r0 =>
       let c0' := r0.getD c0
@@ -527,9 +651,50 @@ def checkBinaryY (F : Facts) (forced : Option Ty) (a : Act) (c0 c1 : NS) : Res (
 /-- post-order case `binaryExpr` for the arithmetic operators -/
 def binNodeY (F : Facts) (env : Env) (forced : Option Ty) (a : Act) (c0 c1 : NS) : Res NS :=
   (checkBinaryY F forced a c0 c1).bind fun (c0', c1') =>
-    let nty : Ty := if a == Act.rem then c0'.ty
-      else (match forced with | some f => f | none => binTypeY false c0'.ty c1'.ty)
-    (foldBinY F a nty c0'.rv c1'.rv).bind fun rv => fixUntypedY F env nty c0' c1' rv
+    let nty : Ty := if a == Act.rem then c0'.ty else nodeTyY F forced false c0' c1'
+    (if F.eval.chk.constExprBin then constExprY F a false c0' c1' else .ok ()).bind fun _ =>
+    (foldBinY F a nty c0'.rv c1'.rv).bind fun rv =>
+    (if F.eval.chk.overflowBin then constOverflowY F rv else .ok ()).bind fun _ =>
+    fixUntypedY F env nty c0' c1' rv
+
+/-- `check.comparison` on basic types: an ordering needs numbers or strings -/
+def comparisonOkY (a : Act) (t : Ty) : Bool :=
+  if a == .eq || a == .ne then true else t.isNumber || t.isString
+
+/-- post-order case `binaryExpr` for the comparison operators (d04f498): both conversions must succeed, the types
+    must then be equal, the node has type `bool` and `compareConst` folds it with constant.Compare -/
+def cmpNodeY (F : Facts) (a : Act) (c0 c1 : NS) : Res NS :=
+  match F.eval.foldOf a with
+  | none => .unm "bool-ops"             -- constOp has no entry: the comparison is compiled to a run-time operation
+  | some g =>
+    if g.entry != .compare then .unm "fold-shape"
+    else
+    (convertUntypedY F c0 c1.ty).bind fun r0 =>
+    match r0 with
+    | none => .reject
+    | some c0' =>
+      (convertUntypedY F c1 c0'.ty).bind fun r1 =>
+      match r1 with
+      | none => .reject
+      | some c1' =>
+        if c0'.ty != c1'.ty then .reject
+        else if !comparisonOkY a c0'.ty then .reject
+        else (cCompare (F.eval.tokOf a) (constValueY c0'.rv) (constValueY c1'.rv)).bind fun b =>
+          .ok { rv := .r .bool (.bool b), ty := .t .bool }
+
+/-- post-order cases `landExpr` / `lorExpr` (check.logicalExpr, then the fold of d04f498) -/
+def logicNodeY (F : Facts) (a : Act) (c0 c1 : NS) : Res NS :=
+  if !c0.ty.isBool || !c1.ty.isBool then .reject
+  else
+    (convertUntypedY F c0 c1.ty).bind fun r0 =>
+    let c0' := r0.getD c0
+    (convertUntypedY F c1 c0'.ty).bind fun r1 =>
+    let c1' := r1.getD c1
+    -- operands of different boolean types are refused unless one is a comparison: only `bool` and untyped bool here
+    if !F.eval.chk.foldLogical then .unm "bool-ops"
+    else match constValueY c0'.rv, constValueY c1'.rv with
+      | .bool x, .bool y => .ok { rv := .r .bool (.bool (if a == .land then x && y else x || y)), ty := c0'.ty }
+      | _, _ => .crash                    -- constant.BoolVal panics
 
 /-- post-order case `callExpr`, conversion arm (check.conversion, then cfg.go) -/
 def convNodeY (F : Facts) (t : BT) (c1 : NS) : Res NS :=
@@ -541,7 +706,10 @@ def convNodeY (F : Facts) (t : BT) (c1 : NS) : Res NS :=
        let cp : Int := match c with | .int v => if int64Ok v then v else -1 | _ => -1
        Res.ok { c1 with rv := .c (.str (utf8 (wrapK .int32 cp))) }
      else Res.reject
-   | .r _ _ => if convertibleY c1.ty.rtype t then Res.ok c1 else Res.reject).bind fun c1 =>
+   | .r _ v =>
+     -- a typed constant converted to a numeric type is a constant conversion (7402c20)
+     if F.eval.chk.convTypedChecked && (t.isInt || t.isFloat) && !representableY F v t then Res.reject
+     else if convertibleY c1.ty.rtype t then Res.ok c1 else Res.reject).bind fun c1 =>
   (match c1.ty.untyped, c1.rv with
    | true, .c _ => (convertUntypedY F c1 (.t t)).bind fun r => match r with
        | some n => Res.ok n
@@ -560,18 +728,9 @@ def stripPar : CExpr → CExpr
   | .par x => stripPar x
   | e => e
 
-/-- constructs whose yaegi side is outside the model: comparison / logical operators and `!` are not folded at
-    all (they are compiled to run-time operations). (`len` of a concatenation below a typed operator was outside
-    the model too while `fixUntyped` of that operator rewrote the `typ` of the concatenation node.) -/
-def unmodelledU (underBin : Bool) : CExpr → Option String
-  | .un a x => if isBoolAct a then some "bool-ops" else unmodelledU underBin x
-  | .bin a x y =>
-    if isBoolAct a then some "bool-ops"
-    else (match unmodelledU true x with | some w => some w | none => unmodelledU true y)
-  | .conv _ x => unmodelledU underBin x
-  | .par x => unmodelledU underBin x
-  | .len x => unmodelledU underBin x     -- since 2e4657a `fixUntyped` does not descend into the argument of a call
-  | .bool _ => some "bool-ops"
+/-- constructs whose yaegi side is outside the model (none since comparisons, logical operators and `!` are folded;
+    kept as the hook the declaration models consult) -/
+def unmodelledU (_underBin : Bool) : CExpr → Option String
   | _ => none
 
 def unmodelled (e : CExpr) : Option String := unmodelledU false e
@@ -588,13 +747,50 @@ def evalY (F : Facts) (env : Env) : (forced : Option Ty) → CExpr → Res NS
     (evalY F env forced x).bind fun c =>
       .ok { c with self := c.fidx && c.ty.untyped, inner := c.loose }
   | forced, .un a x =>
-    if isBoolAct a then .unm "bool-ops"
+    if a == .not then
+      -- before d04f498 the boolean operators were outside the model; since then the operand of `!` gets no type
+      -- from its parent, and in a later walk an operator chain still has the type the first walk left on it
+      if !F.eval.chk.cmpNotPushed then .unm "bool-ops"
+      else
+        let childForced : Option Ty :=
+          if env.pass2 && isChain x then
+            (match evalY F { env with pass2 := false } none x with
+             | .ok n1 => some n1.ty
+             | _ => none)
+          else none
+        (evalY F env childForced x).bind fun c0 => unNodeY F a c0
     else (evalY F env forced x).bind fun c0 => unNodeY F a c0
   | forced, .bin a x y =>
-    if isBoolAct a then .unm "bool-ops"
+    if isCmpAct a || isLogicAct a then
+      if !F.eval.chk.cmpNotPushed then .unm "bool-ops"
+      else
+      -- comparison / logical parents do not push their (boolean) type onto the operands
+      let f0 : Option Ty :=
+        if env.pass2 && isChain x then
+          (match evalY F { env with pass2 := false } none x with
+           | .ok n1 => some n1.ty
+           | _ => none)
+        else none
+      let f1 : Option Ty :=
+        if env.pass2 && isChain y then
+          (match evalY F { env with pass2 := false } none y with
+           | .ok n1 => some n1.ty
+           | _ => none)
+        else none
+      (evalY F env f0 x).bind fun c0 => (evalY F env f1 y).bind fun c1 =>
+        let node (c0 c1 : NS) : Res NS := if isCmpAct a then cmpNodeY F a c0 c1 else logicNodeY F a c0 c1
+        if env.pass2 && !env.typedDecl then
+          let keep (leaf : CExpr) (c sib1 : NS) : NS :=
+            if isLeaf (stripPar leaf) && c.ty.untyped && !sib1.ty.untyped then
+              (match convertUntypedY F c sib1.ty with | .ok (some c') => c' | _ => c)
+            else c
+          match evalY F { env with pass2 := false } none x, evalY F { env with pass2 := false } none y with
+          | .ok s0, .ok s1 => node (keep x c0 s1) (keep y c1 s0)
+          | _, _ => node c0 c1
+        else node c0 c1
     else (evalY F env forced x).bind fun c0 => (evalY F env forced y).bind fun c1 =>
       if isShiftAct a then shiftNodeY F env forced a c0 c1
-      else if env.pass2 && !env.typedDecl && a != Act.quo then
+      else if env.pass2 && !env.typedDecl && (a != Act.quo || !F.eval.chk.quoEarlyReturn) then
         -- a literal operand keeps the conversion (`typ` and reflect `rval`) that `convertUntyped` gave it in the
         -- first walk, where its sibling had the type it computed itself, not the type pushed down now
         let keep (leaf : CExpr) (c sib1 : NS) : NS :=
@@ -625,8 +821,12 @@ def evalY (F : Facts) (env : Env) : (forced : Option Ty) → CExpr → Res NS
       else none
     (evalY F env childForced x).bind fun c1 =>
       if !c1.ty.isString then .reject                 -- check.builtin: "invalid argument for len"
-      else if !env.inConst then .unm "len-at-run-time"
-      else (vString c1.rv).bind fun s =>              -- lenConst
-        .ok { rv := .r (.i .int) (.int s.length), ty := .t (.i .int), inner := c1.loose }
+      else
+        -- `isConstString(n.child[1])`: a string literal or a go/constant string (3d1d9b9)
+        let constStr : Bool := F.eval.chk.lenConstString &&
+          ((match x with | .str _ => true | _ => false) || isConstRV c1.rv)
+        if !env.inConst && !constStr then .unm "len-at-run-time"
+        else (vString c1.rv).bind fun s =>              -- lenConst
+          .ok { rv := .r (.i .int) (.int s.length), ty := .t (.i .int), inner := c1.loose, set := true }
 
 end YaegiVerif.Const
